@@ -156,6 +156,28 @@ def body(c, ctx):
         A0 = BilinearForm(form2, dtype=dtype).assemble(ub, vb, **fkw(fm))
         if (A0 != A).nnz:
             ctx.fail('threaded_vs_serial', f'nthreads={c["nthreads"]}', **sig)
+    # a keyword named like a default entry (x, h, n) overrides the default -- in all three form types alike
+    for nm in ('x', 'h', 'n'):
+        if not gi.uses(tree, nm) or (nm == 'n' and not facetish):
+            continue
+        from skfem.element import DiscreteField
+        base = np.asarray(ub.default_parameters()[nm].value)
+        ov = DiscreteField(2.0 * base + 0.25)
+        kwo = dict(fkw(fref))
+        kwo[nm] = ov
+        kwb = dict(fkw(fm))
+        kwb[nm] = ov
+        Ao = BilinearForm(form2, dtype=dtype).assemble(ub, vb, **kwb)
+        Jo = Functional(form0, dtype=dtype).assemble(ub, uh=uh, vh=vh, **kwo)
+        So = float(np.abs(v) @ (abs(Ao) @ np.abs(u))) + abs(Jo) + S
+        if not abs(v @ (Ao @ u) - Jo) <= tol * So:
+            ctx.fail('override_default_parameter', f'keyword {nm}= overriding the default enters the bilinear form and the functional '
+                     f'differently: {v @ (Ao @ u)!r} vs {Jo!r} | {detail}', **sig)
+        if sv == su:
+            bo = LinearForm(form1, dtype=dtype).assemble(vb, uh=uh, **kwo)
+            if not abs(bo @ v - Jo) <= tol * (So + float(np.abs(bo) @ np.abs(v))):
+                ctx.fail('override_default_parameter', f'keyword {nm}= overriding the default enters the linear form and the functional '
+                         f'differently: {bo @ v!r} vs {Jo!r}', **sig)
     # default x equals an explicitly passed copy
     if gi.uses(tree, 'x'):
         x = ub.global_coordinates()
